@@ -575,6 +575,8 @@ func (g *lgen) stmt() {
 				Origin: &Call{Name: fn, Args: []Expr{&Account{Name: acct}, &Asset{Name: g.asset}}}})
 			g.c.Tags["origin"] = true
 			e = &Var{Name: name}
+			g.lastAmt[g.asset] = &amtVar{expr: e}
+			g.monVars[g.asset] = append(g.monVars[g.asset], name)
 		} else if prev := g.lastAmt[g.asset]; prev != nil && g.pct(20) {
 			// the amount variable of an earlier statement is used again
 			e, set = CopyExpr(prev.expr), prev.set
